@@ -84,7 +84,11 @@ WSS = [" ", "\t", "\n", "\x0c", "\r", "  ", " \t\r\n", "\x0b", " ", " ", ""]
 LABELS = ["utf-8", "x", "", "é", "€", "\U0001f600", "a b", "a;b", "a'b", 'a"b', "UTF8", "=", "==x",
           "iso-8859-1", " ", "x y", "charset", "\x7f", "\x01"]
 JUNK = ["text/html", "text/html;", "; ", ";", "/", "a", "é", "€\U0001f600", "=", "'", '"', "charset ",
-        "charset;", "charset x", "x=", " "]
+        "charset;", "charset x", "x=", " ",
+        # characters whose Unicode lower-/upper-casing changes their UTF-8 length (offsets found in a case-mapped copy
+        # do not fit the original), or maps them onto ASCII letters
+        "\u0130", "\u212a", "\u1e9e", "\u2126", "\u212b", "\u0130\u0130 ", "273 \u212a; ", "\xdf", "\ufb01", "\u0149", "\u01f0",
+        "\u0130stanbul; "]
 
 
 def structured(rng):
@@ -123,9 +127,12 @@ def content_strings(ck):
         out += [json.loads(l) for l in open(corpus) if l.strip()]
     if ck.quick:
         out += list(all_upto(ALPHABET9, 6))            # 597871 strings
+        out += list(all_upto(ALPHABET9[:-1] + ["\u0130"], 5))   # the same with a character that lower-cases to a longer one
         base = [structured(ck.rng) for _ in range(2500)]
     else:
         out += list(all_upto(ALPHABET9, 7))            # 5380840 strings
+        out += list(all_upto(ALPHABET9[:-1] + ["\u0130"], 6))
+        out += list(all_upto(ALPHABET9[:-1] + ["\u212a"], 5))
         base = [structured(ck.rng) for _ in range(20000)]
     for b in base:                                     # truncation at every character
         for i in range(len(b) + 1):
